@@ -6,7 +6,7 @@ from tartiflette.types.type import GraphQLExtension, GraphQLType
 class GraphQLSchemaExtension(GraphQLType, GraphQLExtension):
     def __init__(self, directives, operations):
         self.directives = directives
-        self.operations = operations or []
+        self.operations = operations or {}
 
     # TODO Don't forget schema directives here when implementing them
     def bake(self, schema):
